@@ -289,7 +289,7 @@ def run(tier):
     for (i, j) in pairs:
         for lit, run_ in ((i, j), (j, i)):
             a_, b_ = f"key_{lit}", f"key_{run_}"
-            lib2 = (f'A1 = "{a_}"\nB1 = host_str("{b_}")\nB2 = "key_" + str({run_})\nB3 = "%s_%d" % ("key", {run_})\n'
+            lib2 = (f'A1 = "{a_}"\nB1 = host_str("key") + host_str("_%d" % {run_})\nB2 = "key_" + str({run_})\nB3 = "%s_%d" % ("key", {run_})\n'
                     f'PAIR = [A1, B1, B2, B3, host_str("{a_}")]\nDK = {{A1: 1}}\nDK[B1] = 2\nSK = set([B2, A1])\nTB = (B1, [B3])\n')
             names = ["A1", "B1", "B2", "B3", "PAIR", "DK", "SK", "TB"]
             obs2 = "".join(f"emit({n})\n" for n in names) + "emit([A1 == B1, B1 == B2, len(DK), len(SK), DK.get(B3), B1 in SK, A1 in SK])\n"
@@ -306,7 +306,12 @@ def run(tier):
         a_out = [x for st in inside["steps"] for x in st["out"]]
         b_out = [x for st in loaded["steps"] for x in st["out"]]
         fz = inside.get("frozen") or {}
-        if a_out != b_out:
+        # absolute expectation for the four strings (the self-differential alone is blind when a literal is already wrong)
+        lit_, run2 = (pairs[k // 4] if (k // 2) % 2 == 0 else pairs[k // 4][::-1])
+        want = [f's"key_{lit_}"'] + [f's"key_{run2}"'] * 3
+        if a_out[:4] != want or b_out[:4] != want:
+            res.violation("C04:not-preserved:colliding-strings", {"spec": cspecs[k], "expected": want, "before_freeze": a_out[:4], "after_freeze_loaded": b_out[:4]})
+        elif a_out != b_out:
             i = next((i for i, (x, y) in enumerate(zip(a_out, b_out)) if x != y), 0)
             res.violation("C04:not-preserved:colliding-strings", {"spec": cspecs[k], "before_freeze": a_out[i], "after_freeze_loaded": b_out[i]})
         elif any(fz.get(n) != a_out[i] for i, n in enumerate(["A1", "B1", "B2", "B3", "PAIR", "DK", "SK", "TB"])):
